@@ -175,6 +175,86 @@ def real_simulators(ctx, n):
     return fails
 
 
+def array_params(ctx, rounds):
+    """every instruction that takes an array: the caller's ndarray is bitwise the same after execute (shots or exact), on
+    every simulator that supports the instruction; arrays are random, in the simulator's own dtype (so that no conversion
+    hides an in-place write) and deliberately NOT pretty: column-stochastic matrices are `M / M.sum(0)` (sums off by an ulp)"""
+    import warnings
+    import piquasso as pq
+    from pqv.props.c07 import haar
+    fails = []
+    skipped = {}
+    rng = np.random.default_rng(ctx.seed + 1212)
+
+    def stochastic(k):
+        M = np.triu(rng.uniform(0.05, 1.0, size=(k, k)))      # detected <= actual photon number
+        return M / M.sum(axis=0)
+
+    def rounded_stochastic(k):
+        return np.round(stochastic(k), 9)      # column sums 1 +- 1e-9: accepted by the validation
+
+    def sympl(d):
+        r = rng.uniform(0.1, 0.4, size=d); U, V = haar(rng, d), haar(rng, d)
+        return U @ np.diag(np.cosh(r)) @ V, U @ np.diag(np.sinh(r)) @ V.conj()
+
+    def cases():
+        d = 3
+        U = haar(rng, d)
+        sv = lambda: pq.StateVector([1, 1, 0])
+        for simname, cls in (("purefock", pq.PureFockSimulator), ("fock", pq.FockSimulator), ("passive", pq.PassiveSimulator), ("gaussian", pq.GaussianSimulator)):
+            prep = (lambda: [(pq.Vacuum(), ()), (pq.Squeezing(r=0.3), (0,)), (pq.Displacement(r=0.4, phi=0.3), (1,))]) if simname == "gaussian" else \
+                   (lambda: [(pq.DensityMatrix(ket=(1, 1, 0), bra=(1, 1, 0)), (0, 1, 2))]) if simname == "fock" else (lambda: [(sv(), (0, 1, 2))])
+            yield simname, cls, "Interferometer", prep, lambda: ([U.copy()], lambda a: [(pq.Interferometer(a[0]), (0, 1, 2))]), (None, 5)
+            for nm, mk in (("ImperfectPNM", stochastic), ("ImperfectPNM-rounded", rounded_stochastic)):
+                yield simname, cls, nm, prep, (lambda mk=mk: ([mk(4)], lambda a: [(pq.ImperfectParticleNumberMeasurement(a[0]), (0, 1))])), (7, 30)
+            if simname in ("purefock", "fock", "gaussian"):
+                yield simname, cls, "GaussianTransform", prep, lambda: (list(sympl(2)), lambda a: [(pq.GaussianTransform(passive=a[0], active=a[1]), (0, 2))]), (None, 4)
+            if simname == "gaussian":
+                A = rng.integers(0, 2, size=(3, 3)).astype(float); A = np.triu(A, 1); A = A + A.T
+                A[0, 1] = A[1, 0] = 1.0
+                yield simname, cls, "Graph", (lambda: []), lambda A=A: ([A.copy()], lambda a: [(pq.Graph(a[0]), (0, 1, 2))]), (None, 4)
+                yield simname, cls, "Mean+Covariance", (lambda: [(pq.Vacuum(), ())]), lambda: ([rng.normal(size=6), (lambda B: B @ B.T + 2 * np.eye(6))(rng.normal(size=(6, 6)) * 0.3)],
+                                                                             lambda a: [(pq.Mean(a[0]), ()), (pq.Covariance(a[1]), ())]), (None, 4)
+                yield simname, cls, "DeterministicGaussianChannel", prep, lambda: ([np.eye(2) * 0.5, np.eye(2) * 1.5], lambda a: [(pq.DeterministicGaussianChannel(X=a[0], Y=a[1]), (1,))]), (None, 4)
+                yield simname, cls, "Generaldyne", prep, lambda: ([np.array([[1.3, 0.2], [0.2, 0.9]])], lambda a: [(pq.GeneraldyneMeasurement(detection_covariance=a[0]), (0,))]), (6,)
+            if simname == "passive":
+                yield simname, cls, "Loss", prep, lambda: ([rng.uniform(0.3, 0.95, size=1), rng.uniform(0.3, 0.95, size=1)], lambda a: [(pq.Loss(transmissivity=a[0]), (0,)), (pq.Loss(transmissivity=a[1]), (2,)), (pq.ParticleNumberMeasurement(), ())]), (6,)
+                yield simname, cls, "LossyInterferometer", prep, lambda: ([haar(rng, 3) @ np.diag(rng.uniform(0.3, 0.95, size=3)) @ haar(rng, 3)],
+                                                                         lambda a: [(pq.LossyInterferometer(a[0]), (0, 1, 2)), (pq.ParticleNumberMeasurement(), ())]), (6,)
+                yield simname, cls, "ImperfectPostSelect", prep, lambda: ([stochastic(4)], lambda a: [(pq.Interferometer(U), (0, 1, 2)), (pq.ImperfectPostSelectPhotons(photon_counts=(1,), detector_efficiency_matrix=a[0]), (2,))]), (6,)
+            if simname == "fock":
+                yield simname, cls, "Kerr-array-free", prep, lambda: ([U.copy()], lambda a: [(pq.Interferometer(a[0]), (0, 1, 2)), (pq.Kerr(xi=0.2), (1,))]), (None, 3)
+
+    for r in range(rounds):
+        for simname, cls, name, prep, mk, shot_list in cases():
+            for shots in shot_list:
+                arrays, build = mk()
+                try:
+                    ins = build(arrays)
+                    with warnings.catch_warnings():
+                        warnings.simplefilter("ignore")
+                        prog = pq.Program(instructions=[i.on_modes(*m) for i, m in prep()] + [i.on_modes(*m) for i, m in ins])
+                        sim = cls(d=3, config=pq.Config(cutoff=4, measurement_cutoff=4, seed_sequence=int(rng.integers(1, 10 ** 6))))
+                        before = [a.tobytes() for a in arrays]
+                        sim.execute(prog, shots=shots)
+                        mid = [a.tobytes() for a in arrays]
+                        sim.execute(prog, shots=shots)      # the same instruction objects once more
+                        after = [a.tobytes() for a in arrays]
+                except Exception as e:
+                    skipped[f"{simname}:{name}:{shots}"] = f"{type(e).__name__}: {str(e)[:80]}"
+                    continue
+                ctx.count(("array", simname, name, shots, r), nontrivial=True)
+                for k, (b, m, a) in enumerate(zip(before, mid, after)):
+                    if b != m or b != a:
+                        old = np.frombuffer(b, dtype=arrays[k].dtype).reshape(arrays[k].shape)
+                        delta = float(np.abs(arrays[k] - old).max())
+                        fails.append((f"array-argument:{simname}:{name}", f"{simname}: the caller's array #{k} of {name} was modified by execute(shots={shots}) (max change {delta:.3g})",
+                                      {"sim": simname, "instruction": name, "shots": shots, "array_index": k, "before": old.tolist(), "after": arrays[k].tolist()}))
+                        break
+    ctx.notes["array_params_skipped"] = skipped
+    return fails
+
+
 def native_arrays(ctx):
     """array arguments handed to the matrix functions stay bit-identical"""
     from piquasso._math.permanent import permanent, permanent_laplace
@@ -235,7 +315,7 @@ def run(ctx):
     mism, dist = scripted(ctx, n_prog)
     ctx.notes["input_distribution"] = dist
     ctx.notes["correspondence_mismatches"] = len(mism)
-    fails = real_simulators(ctx, n_real) + native_arrays(ctx)
+    fails = real_simulators(ctx, n_real) + array_params(ctx, 1 if quick else 12) + native_arrays(ctx)
     seen = set()
     for key, msg, inp in fails:
         if key not in seen:
